@@ -549,7 +549,8 @@ func (inst *Instance) ReadStore(ctx context.Context) (*StoreView, error) {
 			}
 			sv.Prop[id] = int64(binary.LittleEndian.Uint64(v[1:9]))
 		default:
-			return nil, fmt.Errorf("unexpected record kind %x", k[48])
+			// a record under a key that is not pubkey||action (never written by the pinned code):
+			// not decodable; the comparison with the model's store then shows what is missing
 		}
 	}
 	return sv, nil
